@@ -270,6 +270,17 @@ fn gen_any_frame(r: &mut Rng, cfg: &WorldCfg, avoid: &BTreeSet<String>) -> Frame
             FrameSpec::Raw(r.bytes(n))
         }
         10 | 11 => frame_ok(r),
+        12 => {
+            // authentic but with an out-of-range header field (FOptsLen beyond the frame, RFU bits, other MType ...)
+            let mut d = if r.chance(1, 2) { DataSpec::plain(1) } else { frame_with_macs((0..r.range(0, 3)).map(|_| gen_mac(r, cfg.region)).collect(), false) };
+            if r.chance(1, 2) {
+                d.body = Body::Data { port: r.range(0, 255) as u8, len: r.range(0, 4) as u8 };
+            }
+            let offset = if r.chance(2, 3) { *r.pick(&[0u8, 5, 5, 5, 8]) } else { r.below(16) as u8 };
+            let xor = if r.chance(1, 2) { 1u8 << r.below(8) } else { r.range(1, 255) as u8 };
+            d.tamper = Tamper::Resigned { offset, xor };
+            FrameSpec::Data(d)
+        }
         _ => frame_rejected(r),
     }
 }
@@ -381,8 +392,17 @@ impl C04 {
                 }
             }
             t.nb_deferred_tx = cfg.frontend == Frontend::Nb && r.chance(1, 4);
+            if cfg.frontend == Frontend::Nb && r.chance(1, 8) {
+                t.nb_intrude = (r.range(1, 3) as u8) | ((r.below(3) as u8) << 2);
+            }
             t
         };
+        if cfg.otaa && r.chance(1, 25) {
+            // a long run of join attempts that nobody answers (the join-channel walk of the fixed plans)
+            for _ in 0..r.range(20, 90) {
+                ops.push(Op::Join(Txn::default()));
+            }
+        }
         if cfg.otaa {
             let mut t = gen_txn(&mut r, &cfg, true);
             if r.chance(2, 3) {
